@@ -2,7 +2,7 @@
 import engine
 
 OPS = ["equal", "cmp", "is_zero", "first_zero_row", "find_pivot", "rw_bit"]
-PROOFS = []
+PROOFS = ["Properties_C17"]
 
 
 def run(res, tier, seed):
@@ -10,6 +10,7 @@ def run(res, tier, seed):
                        "different dimensions; pivot search from every start class incl. the last 64 columns; owned operands "
                        "and windows; non-trivial unless 1x1; distinct by (op, shape class, content kind, mode)")
     engine.proof_part(res, PROOFS)
+    engine.corpus(res, "C17")
     n = 300 if tier == "quick" else 3000
     engine.run_ops(res, "C17", OPS, seed, n, 130 if tier == "quick" else 300)
     # the same observers on windows (foreign bits around the view must not be seen)
